@@ -870,15 +870,17 @@ type crashJob struct {
 	outs     []string
 	key      []byte
 	label    string
+	all      bool // also kill at syscalls that failed without changing anything
 }
 
 type crashResult struct {
 	cases  []CrashCase
 	terms  []string
 	err    string
-	first  int
-	last   int
-	killed int
+	first   int
+	last    int
+	killed  int
+	skipped int
 }
 
 func runCrashJob(j crashJob) crashResult {
@@ -906,6 +908,12 @@ func runCrashJob(j crashJob) crashResult {
 	oldWant := expectedTree(j.old)
 	// 2. one run per syscall of the store, killed on entry to it; the run after the last one survives
 	for n := first; n <= last+1; n++ {
+		if !j.all && n <= last && strings.Contains(names[n-first].Text, "= -1 E") {
+			// quick tier: a syscall that failed (RemoveAll of something absent) changed nothing, so
+			// dying before it is the same crash state as dying before the next call
+			res.skipped++
+			continue
+		}
 		sp.Root = filepath.Join(root, fmt.Sprintf("n%d", n))
 		must(os.MkdirAll(sp.Root, 0o775))
 		runLog := filepath.Join(sp.Root, "strace.log")
@@ -1150,7 +1158,7 @@ func main() {
 		// ---- 2. crash points ------------------------------------------------------------------
 		var jobs []crashJob
 		add := func(label string, compress bool, old []Node, tmp []Node, tree []Node) {
-			j := crashJob{id: len(jobs), compress: compress, tree: tree, outs: rootNames(tree), key: freshKey(c.Rng), label: label}
+			j := crashJob{id: len(jobs), compress: compress, tree: tree, outs: rootNames(tree), key: freshKey(c.Rng), label: label, all: c.Thor}
 			if old != nil {
 				j.old, j.oldOuts = old, rootNames(old)
 			}
@@ -1254,7 +1262,7 @@ func main() {
 					c.Fail("roundtrip-miss", "Retrieve after a completed Store (helper process) did not restore the tree", cc)
 				}
 			}
-			c.Note("crash job %d %s compress=%v: store syscalls %d..%d, outcomes %v", i, j.label, j.compress, res.first, res.last, classes)
+			c.Note("crash job %d %s compress=%v: store syscalls %d..%d (%d no-op failures not used as crash points), outcomes %v", i, j.label, j.compress, res.first, res.last, res.skipped, classes)
 		}
 		c.Note("crash points: %d jobs, %d helper runs killed by strace injection (each verified: helper died by SIGKILL before writing its completion file)", len(jobs), totalKills)
 
@@ -1317,7 +1325,7 @@ func runReplay(c *lib.Ctx, raw json.RawMessage) {
 		var cc CrashCase
 		must(json.Unmarshal(raw, &cc))
 		j := crashJob{compress: cc.Spec.Compress, old: cc.Spec.Old, oldOuts: cc.Spec.OldOuts, tmp: cc.Spec.Tmp, tmpOuts: cc.Spec.TmpOuts,
-			tree: cc.Spec.New, outs: cc.Spec.Outs, key: cc.Spec.Key, label: "replay"}
+			tree: cc.Spec.New, outs: cc.Spec.Outs, key: cc.Spec.Key, label: "replay", all: true}
 		res := runCrashJob(j)
 		if res.err != "" {
 			panic(res.err)
